@@ -88,7 +88,7 @@ def propose_tmoves(wf, configs, energy_accumulator, tstep, e):
 
     def select_walker(array):
         r = np.random.rand()
-        return np.searchsorted(array, r)
+        return np.searchsorted(array, r, side="right")
 
     cdf = np.cumsum(forward_probability / norm[:, np.newaxis], axis=1)
     selected_moves = np.apply_along_axis(select_walker, 1, cdf)
